@@ -185,5 +185,96 @@ func runC07(c *Ctx) error {
 			c.Sample(map[string]interface{}{"nodes": len(r.addrs), "height": cases[i].h, "round": cases[i].r, "selected": r.picks[0]})
 		}
 	}
+	return c07longLived(c, local, pub)
+}
+
+// one selector (and one proposer selector) living across many selections, as in a running node: rounds of one height
+// over one previous block, the same point again with the suffrage listed in another order, a suffrage replaced for a
+// height.  Every pick must be the pick of a selector made fresh for that call.
+func c07longLived(c *Ctx, local base.LocalNode, pub base.Publickey) error {
+	runs := 20
+	if c.Thorough() {
+		runs = 400
+	}
+	for ri := 0; ri < runs; ri++ {
+		mk := func(n int) []base.Node {
+			nodes := make([]base.Node, n)
+			for j := range nodes {
+				nodes[j] = base.NewBaseNode(base.DummyNodeHint, pub, base.NewStringAddress(fmt.Sprintf("n%02d-%d", c.Intn(90), j)))
+			}
+			return nodes
+		}
+		cur := mk(3 + c.Intn(6))
+		var mu sync.Mutex
+		asked := ""
+		args := isaac.NewBaseProposalSelectorArgs()
+		args.Pool = c07pool{}
+		args.ProposerSelectFunc = isaac.NewBlockBasedProposerSelector().Select
+		args.Maker = isaac.NewProposalMaker(local, base.NetworkID("c07"), nil, c07pool{}, nil)
+		args.GetNodesFunc = func(base.Height) ([]base.Node, bool, error) { return cur, true, nil } // the caller's own slice, as a suffrage hands it out
+		args.RequestFunc = func(_ context.Context, p base.Point, proposer base.Node, pb util.Hash) (base.ProposalSignFact, bool, error) {
+			mu.Lock()
+			if asked == "" {
+				asked = proposer.Address().String()
+			}
+			mu.Unlock()
+			return isaac.NewProposalSignFact(isaac.NewProposalFact(p, proposer.Address(), pb, nil)), true, nil
+		}
+		args.MinProposerWait = time.Second * 5
+		sel := isaac.NewBaseProposalSelector(local, args)
+		h, r := int64(33+c.Intn(100)), uint64(0)
+		prev := valuehash.NewSHA256(c.Bytes(16))
+		var toks []string
+		for st := 0; st < 4+c.Intn(6); st++ {
+			switch c.Intn(5) {
+			case 0: // the next round of the height, same previous block
+				r++
+				toks = append(toks, "next-round")
+			case 1: // the same point again, the suffrage listed in another order (re-ordered in place)
+				p := c.Perm(len(cur))
+				old := append([]base.Node{}, cur...)
+				for a, b := range p {
+					cur[a] = old[b]
+				}
+				toks = append(toks, "relisted")
+			case 2: // another suffrage for the same height
+				cur = mk(3 + c.Intn(6))
+				toks = append(toks, "suffrage-replaced")
+			case 3:
+				h, r, prev = h+1, 0, valuehash.NewSHA256(c.Bytes(16))
+				toks = append(toks, "next-height")
+			default:
+				toks = append(toks, "again")
+			}
+			point := base.NewPoint(base.Height(h), base.Round(r))
+			mu.Lock()
+			asked = ""
+			mu.Unlock()
+			ctx, cancel := context.WithTimeout(context.Background(), time.Second*10)
+			_, err := sel.Select(ctx, point, prev, time.Second)
+			cancel()
+			if err != nil {
+				return fmt.Errorf("long-lived select: %w", err)
+			}
+			mu.Lock()
+			got := asked
+			mu.Unlock()
+			fresh, err := c07select(local, append([]base.Node{}, cur...), point, prev)
+			if err != nil {
+				return err
+			}
+			c.Eval(1)
+			c.Count("long-lived", toks[len(toks)-1])
+			if got != fresh {
+				var names []string
+				for _, nd := range cur {
+					names = append(names, nd.Address().String())
+				}
+				c.Violation("C07:selection-depends-on-history", fmt.Sprintf("one selector used for the steps %v: at %v over %v it asks %s, a fresh selector asks %s", toks, point, names, got, fresh),
+					map[string]interface{}{"steps": append([]string{}, toks...), "point": point.String(), "nodes": names})
+				break
+			}
+		}
+	}
 	return nil
 }
